@@ -402,8 +402,8 @@ void session_table_clear(session_table *table) {
     table->all_complete = true;
 }
 
-int derive_session_event(const void *frame, session_table *table, const uint8_t *our_mac) {
-    if (!frame) {
+int derive_session_event(const void *frame, size_t frame_len, session_table *table, const uint8_t *our_mac) {
+    if (!frame || frame_len < sizeof(lltd_demultiplex_header_t)) {
         return -1;
     }
 
@@ -444,6 +444,15 @@ int derive_session_event(const void *frame, session_table *table, const uint8_t 
                 acking = true;
             } else {
                 const ethernet_header_t *stations = disc_header->stationList;
+                /* The wire count is untrusted: scan only the stations the frame really holds. */
+                size_t list_offset = sizeof(*header) + offsetof(lltd_discover_upper_header_t, stationList);
+                size_t held = 0;
+                if (frame_len > list_offset) {
+                    held = (frame_len - list_offset) / sizeof(stations[0]);
+                }
+                if ((size_t)station_count > held) {
+                    station_count = (uint16_t)held;
+                }
                 for (uint16_t i = 0; i < station_count; i++) {
                     if (mac_equal(stations[i].source.a, our_mac)) {
                         acking = true;
